@@ -49,6 +49,9 @@ def run(ck):
     builders(ck)
     severity_comparisons(ck)
     evaluated_once(ck)
+    ck.rule("C16-O9", "the filters decide on the text that was logged: LogMessage keeps the message text it is given (no trailing line break chopped, no trimming)")
+    from rules.oth import message_text_intact
+    message_text_intact(ck, ck.facts, "C16-O9", "texts that differ only in that are one text for the duplicate filter, and an expression that looks at the end of the text (\\n, \\s$, \\z) gets the wrong verdict")
 
 
 def level(ck):
